@@ -135,7 +135,7 @@ func c05pool(lo, hi *big.Int, rng *core.Rng) []*big.Int {
 }
 
 func C05(c *core.Ctx) {
-	c.Rule = "generated modules of leaves/leaf-lists: every numeric base type (+decimal64, string length) × typedef chains of depth 0–3 × restriction texts (alternatives, open ends, min/max, single values, negative and 64-bit bounds) × candidate values at and around every bound, base min/max, 0; written through SetValue, UpsertFrom(JSON) and UpsertFrom(node); store compared before/after. non-trivial = value within ±1 of a bound or at a base-type extreme; distinct by (leaf type text, value, path); directed (c05typedValues): 24 typed values (val.Enum, val.Bits, val.IdentRef, lists, values of another kind) written with Selection.Set and handed to UpsertFrom by a source node: stored iff a value of the type; (c05identityBases) identityref types with one and two bases, through a typedef, a leafref and on a leaf-list × 8 identities (bases, derived from one, from both, from a derived one, unknown): verdict compared with Member.identByBases over the closures the compiled schema shows; (c05keyOutOfType) entries under keys their key leaves refuse (range, length, second component), upsert and insert, two map-backed nodes: an error and no entry"
+	c.Rule = "generated modules of leaves/leaf-lists: every numeric base type (+decimal64, string length) × typedef chains of depth 0–3 × restriction texts (alternatives, open ends, min/max, single values, negative and 64-bit bounds) × candidate values at and around every bound, base min/max, 0; written through SetValue, UpsertFrom(JSON) and UpsertFrom(node); store compared before/after. non-trivial = value within ±1 of a bound or at a base-type extreme; distinct by (leaf type text, value, path); directed (c05typedValues): 24 typed values (val.Enum, val.Bits, val.IdentRef, lists, values of another kind) written with Selection.Set and handed to UpsertFrom by a source node: stored iff a value of the type; (c05identityBases) identityref types with one and two bases, through a typedef, a leafref and on a leaf-list × 8 identities (bases, derived from one, from both, from a derived one, unknown): verdict compared with Member.identByBases over the closures the compiled schema shows; (c05keyOutOfType) entries under keys their key leaves refuse (range, length, second component), upsert and insert, two map-backed nodes: an error and no entry; (c05hugeLength) 18446744073709551615 as the upper bound of string and binary lengths, alone, in alternatives and under a narrowing typedef"
 	c.Assumptions = append(c.Assumptions,
 		"regexp matching is an uninterpreted predicate: the harness evaluates each pattern with Go's regexp and passes the booleans to the model",
 		"decimal64 values/bounds are generated with ≤2 fraction digits and |x| ≤ 10^6 so that float64 comparison agrees with exact decimal comparison",
@@ -153,6 +153,7 @@ func C05(c *core.Ctx) {
 	c05typedValues(c)
 	c05identityBases(c)
 	c05keyOutOfType(c)
+	c05hugeLength(c)
 }
 
 // values that were not made for the leaf they are written to - handed to Set as typed values by the caller, or to
@@ -399,6 +400,57 @@ func c05keyOutOfType(c *core.Ctx) {
 						Input: map[string]interface{}{"yang": y, "backend": be, "op": op, "doc": tc.doc}, Impl: bad, Spec: map[bool]string{true: "accepted", false: "an error, no entry under that key"}[tc.ok]})
 				}
 			}
+		}
+	}
+}
+
+// the largest length YANG has (18446744073709551615, the upper end of the length of string and binary) as a bound:
+// a length is compared with it like with any other bound
+func c05hugeLength(c *core.Ctx) {
+	y := `module hl { namespace "urn:hl"; prefix hl; revision 2020-01-01;
+  leaf big { type string { length "0..18446744073709551615"; } } leaf big2 { type string { length "2..18446744073709551615"; } }
+  leaf bin { type binary { length "2..18446744073709551615"; } } leaf alt { type string { length "0..1|4..18446744073709551615"; } }
+  typedef t { type string { length "1..18446744073709551615"; } } leaf der { type t { length "1..3"; } } }`
+	m, err := parser.LoadModuleFromString(nil, y)
+	if err != nil {
+		c.Violation(core.Replay{Kind: "property-failure", Class: "huge-length-load", Summary: "valid module does not load: " + err.Error(), Input: y})
+		return
+	}
+	for _, tc := range []struct {
+		doc string
+		ok  bool
+	}{{`{"big":"abc"}`, true}, {`{"big":""}`, true}, {`{"big2":"a"}`, false}, {`{"big2":"ab"}`, true}, {`{"bin":"AQ=="}`, false}, {`{"bin":"AQID"}`, true},
+		{`{"alt":"ab"}`, false}, {`{"alt":"a"}`, true}, {`{"alt":"abcde"}`, true}, {`{"der":"abcd"}`, false}, {`{"der":"abc"}`, true}, {`{"der":""}`, false}} {
+		store := map[string]interface{}{}
+		var werr error
+		e := safeDo(func() error {
+			src, err := nodeutil.ReadJSON(tc.doc)
+			if err != nil {
+				return err
+			}
+			werr = node.NewBrowser(m, nodeutil.ReflectChild(store)).Root().UpsertFrom(src)
+			return nil
+		})
+		c.Evaluations++
+		c.Count("huge_length", map[bool]string{true: "inside", false: "outside"}[tc.ok])
+		c.Distinct("hugelen " + tc.doc)
+		bad := ""
+		switch {
+		case e != nil:
+			bad = e.Error()
+		case tc.ok && (werr != nil || len(store) == 0):
+			bad = fmt.Sprintf("refused (%v)", werr)
+		case !tc.ok && (werr == nil || len(store) != 0):
+			bad = fmt.Sprintf("accepted (%v), store %v", werr, store)
+		}
+		if bad != "" {
+			kind := "property-failure"
+			if tc.ok {
+				// a value of the type that is refused: the property is one-directional, this is the correspondence with the model
+				kind = "correspondence"
+			}
+			c.Violation(core.Replay{Kind: kind, Class: "huge-length", Summary: fmt.Sprintf("upsert %s: %s; the length is inside the restriction: %v", tc.doc, bad, tc.ok),
+				Input: map[string]interface{}{"yang": y, "doc": tc.doc}, Impl: bad, Spec: fmt.Sprint(tc.ok)})
 		}
 	}
 }
